@@ -204,7 +204,9 @@ class CallMixin:
                 names = list(c.params)
                 for n, a in zip(names, args):
                     sub.locals[n] = a
+                sub.locals["__fn__"] = fv
                 sub.entry = dict(sub.locals)
+                self.check_at(node, fr, "call:rule", fv)
                 return self.apply_contract(c, sub, node, fr)
         raise Unsupported(f"call of {fv!r} at line {node.lineno}")
 
@@ -549,7 +551,7 @@ class CallMixin:
             self.old_state = saved_old
 
 
-OPAQUE_PURE_METHODS = {"search", "match", "fullmatch", "group", "start", "end", "get", "lower", "upper", "strip", "sub"}
+OPAQUE_PURE_METHODS = {"search", "match", "fullmatch", "group", "start", "end", "get", "lower", "upper", "strip", "sub", "append", "pop"}
 
 
 class VStrOrList(V):
